@@ -1,7 +1,7 @@
 package router
 
 //verif:dir internal/router
-//verif:bound route tables of 2 (quick) / 3 (thorough) routes drawn from 8 endpoint shapes x {GET, ANY}; request path: arbitrary bytes over {/ a b c}, len<=4 (quick) / <=5 (thorough); method GET; the iteration order of the route map is arbitrary and independent in the two lookups
+//verif:bound route tables of 2 (quick) / 3 (thorough) routes drawn from 10 endpoint shapes (including trailing-slash twins) x {GET, ANY}; request path: arbitrary bytes over {/ a b c}, len<=4 (quick) / <=5 (thorough); method GET; the iteration order of the route map is arbitrary and independent in the two lookups
 //verif:outside the concrete server route table (its routes are instances of these shapes), route locking, paths longer than the bound
 
 import (
@@ -11,7 +11,7 @@ import (
 	sym "github.com/tucats/ego/internal/zzverif/sym"
 )
 
-var c32Endpoints = []string{"/a", "/a/b", "/a/{{x}}", "/{{x}}/b", "/{{x}}/{{y}}", "/a/{{y...}}", "/{{x}}", "/a/b/{{x}}"}
+var c32Endpoints = []string{"/a", "/a/b", "/a/{{x}}", "/{{x}}/b", "/{{x}}/{{y}}", "/a/{{y...}}", "/{{x}}", "/a/b/{{x}}", "/a/{{x}}/", "/a/"}
 
 func c32Handler(session *Session, w http.ResponseWriter, r *http.Request) int { return 200 }
 
